@@ -12,6 +12,8 @@ from collections import Counter
 from functools import wraps
 from typing import TYPE_CHECKING
 
+import numpy as np
+
 from mici.errors import ReadOnlyStateError
 
 if TYPE_CHECKING:
@@ -35,15 +37,23 @@ def _cache_key_func(system: System, method: Callable) -> tuple[str, int]:
 
 
 def _copy_if_state_variable(value: Any, state: ChainState) -> Any:  # noqa: ANN401
-    """Return a copy of value if it is one of the variable objects of the state.
+    """Return a copy of value if it is (or is a view of) a variable of the state.
 
     A method may return a state variable itself (for example `metric.inv @ state.mom`
-    for an identity metric). Caching such an alias would let in-place updates of the
-    variable, including ones made through another state sharing the cache entry after a
-    copy, silently change the cached value.
+    for an identity metric) or an array sharing memory with one (for example a
+    constraint Jacobian function `lambda q: q[None]`). Caching such an alias would let
+    in-place updates of the variable, including ones made through another state sharing
+    the cache entry after a copy, silently change the cached value.
     """
-    if any(value is variable for variable in state._variables.values()):
-        return copy.copy(value)
+    for variable in state._variables.values():
+        if value is variable:
+            return copy.copy(value)
+        if (
+            isinstance(value, np.ndarray)
+            and isinstance(variable, np.ndarray)
+            and np.may_share_memory(value, variable)
+        ):
+            return value.copy()
     return value
 
 
